@@ -24,6 +24,8 @@ def run(ctx, col, tier):
              "method of these classes stores to self -- copies are deep and topology and coordinates are then edited in place (re-rooting, "
              "concatenation, node setters, transforms), so a kept decomposition or measure describes the tree before the edit; zero expected, "
              "positive examples are those of the transform-state lint", floor=1)
+    from ..rules import smalllints as _small
+    _small.run_shared(ctx, col, ('swcgeom.core.branch_tree', 'swcgeom.core.tree', 'swcgeom.core.branch', 'swcgeom.core.path', 'swcgeom.core.node', 'swcgeom.core.swc'))
     from ..rules import stateless as _stateless
     _stateless.check_memo(ctx, col, "R-MEMO", ("swcgeom.core.tree", "swcgeom.core.path", "swcgeom.core.node", "swcgeom.core.branch",
                                                "swcgeom.core.compartment", "swcgeom.core.branch_tree", "swcgeom.core.swc", "swcgeom.core.segment"))
